@@ -70,6 +70,18 @@ class PipelineUnit(WeaverUnit):
                     if not rfa_units.adaptive_windows_exact(chk)[2]:
                         continue
                 cases.append(c)
+        # the shortest series the property names — two points, one interval — for every strategy and both target rules, without the
+        # append_one_sample step (with it the series has two intervals)
+        for s in rfa_units.STRATS:
+            if s == "cubic":
+                continue
+            for rt in ("trapezoid", "rectangle"):
+                c = prog(gens.sorted_x(rng, 2), gens.values(rng, 2, "int"), s, rng.choice([3, 4, 8]), None, rt, m_for_mk=2)
+                if c["script"][-2]["strategy"] in ("linadapt", "expadapt"):
+                    chk = dict(c["script"][-2]); chk["x"], chk["y"] = c["x"], c["y"]
+                    if not rfa_units.adaptive_windows_exact(chk)[2]:
+                        continue
+                cases.append(c)
         # every bundled dataset (model comparison is skipped for them in the quick tier: long series)
         for name, bx, by in bundled():
             s = rng.choice(["expadapt", "linfixed", "pc", "expfixed", "linadapt"])
